@@ -1117,4 +1117,191 @@ def segmentMapsApply (d : List Nat) (coord : Int) : R Int :=
         (toI16 (HandRead.beAt d (2 + 4 * i) 2), toI16 (HandRead.beAt d (2 + 4 * i + 2) 2)))
       unwrapR (Checked.avarApply maps coord)
 
+/-! ## `read_dense_deltas`, `read_sparse_deltas`, `TupleVariation::accumulate_{dense,sparse}_deltas`
+
+The caller's `&mut [Point<D>]` is the pair of coordinate lists `(xs, ys)` (bit patterns of `D`), the
+`&mut [PointFlags]` the list of `HAS_DELTA` markers.  `D` is one of the integer-backed `PointCoord`
+types; `f32` is not modelled.  KNOWN FINDING `C01-accumulate-deltas-i32-overflow`: for `D = i32` the
+`+=` is the plain `i32` addition and can overflow — `DKind.addAssign .int` is `Checked.i32.add`, whose
+`none` is that panic. -/
+
+inductive DKind where
+  | fixed
+  | f26dot6
+  | int
+  deriving Repr, DecidableEq
+
+/-- `D::from_i32(v)` (`Fixed::from_i32` = `v << 16`, `F26Dot6::from_i32` = `v << 6`, identity) -/
+def DKind.fromI32 : DKind → Int → Option Int
+  | .fixed, v => Checked.fxFromI32 v
+  | .f26dot6, v => Checked.f26FromI32 v
+  | .int, v => some v
+
+/-- `D::from_fixed(x)` (identity, `to_f26dot6`, `to_i32`) -/
+def DKind.fromFixed : DKind → Int → Option Int
+  | .fixed, x => some x
+  | .f26dot6, x => Checked.fxToF26Dot6 x
+  | .int, x => Checked.fxToI32 x
+
+/-- `a += b` of the coordinate type: `wrapping_add` for the fixed-point types, the plain `+` for `i32` -/
+def DKind.addAssign : DKind → Int → Int → Option Int
+  | .int, a, b => Checked.i32.add a b
+  | _, a, b => some (Checked.i32.wrappingAdd a b)
+
+/-- the value a closure adds for `new_delta`: `D::from_i32(new_delta)` when `scalar == Fixed::ONE`,
+else `D::from_fixed(Fixed::from_i32(new_delta) * scalar)`; `none` = arithmetic trap -/
+def deltaTerm (k : DKind) (scalar nd : Int) : Option Int :=
+  if scalar = 65536 then k.fromI32 nd
+  else
+    match Checked.fxFromI32 nd with
+    | none => none
+    | some f =>
+      match Checked.fxMul f scalar with
+      | none => none
+      | some p => k.fromFixed p
+
+/-- `coord += term` at index `ix` (the index is known to be in range) -/
+def addAt (k : DKind) (buf : List Int) (ix : Nat) (term : Int) : Option (List Int) :=
+  match buf[ix]? with
+  | none => none
+  | some cur => (k.addAssign cur term).map (buf.set ix)
+
+/-- the `run_count` values of a run at `pos` (`Cursor::read_array` succeeded: they exist) -/
+def runValues (d : List Nat) (vsize pos n : Nat) : List Int :=
+  (List.range n).map (fun i => (dlReadValue d vsize (pos + i * vsize)).getD 0)
+
+/-- `for (delta, new_delta) in dest.iter_mut().zip(packed_deltas) { f(delta, new_delta) }` -/
+def denseApply (k : DKind) (scalar : Int) : List Int → Nat → List Int → Option (List Int)
+  | [], _, buf => some buf
+  | v :: rest, ix, buf =>
+    match deltaTerm k scalar v with
+    | none => none
+    | some t =>
+      match addAt k buf ix t with
+      | none => none
+      | some buf' => denseApply k scalar rest (ix + 1) buf'
+
+/-- `read_dense_deltas(cursor, deltas, f)` on one coordinate: `while cur < count`, `control =
+cursor.read()?`, `dest = deltas.get_mut(cur..cur + run_count).ok_or(OutOfBounds)?` (unchecked `+`),
+the typed `cursor.read_array(run_count)?`, `cur += run_count`.  Returns the result and the cursor
+position; fuel `count + 1` always suffices. -/
+def readDense (k : DKind) (scalar : Int) (d : List Nat) : Nat → Nat → Nat → List Int → R (List Int × Nat)
+  | 0, _, _, _ => .trap
+  | fuel + 1, pos, cur, buf =>
+    if cur < buf.length then
+      match u8At d pos with
+      | none => .err .oob
+      | some control =>
+        let runCount := control % 64 + 1
+        match uadd cur runCount with
+        | none => .trap
+        | some e =>
+          if e ≤ buf.length then
+            let vsize := runTypeSize control
+            if vsize = 0 then readDense k scalar d fuel (pos + 1) e buf
+            else
+              match (Cur.readArray d ⟨pos + 1⟩ runCount vsize).1 with
+              | .error _ => .err .oob
+              | .ok _ =>
+                match denseApply k scalar (runValues d vsize (pos + 1) runCount) cur buf with
+                | none => .trap
+                | some buf' => readDense k scalar d fuel (pos + 1 + runCount * vsize) e buf'
+          else .err .oob
+    else .ok (buf, pos)
+
+/-- `TupleVariation::accumulate_dense_deltas(deltas, scalar)`: the x pass, then the y pass with the
+same cursor, over the packed deltas `dd` of the tuple -/
+def accumulateDense (k : DKind) (scalar : Int) (dd : List Nat) (xs ys : List Int) : R (List Int × List Int) :=
+  match readDense k scalar dd (xs.length + 1) 0 0 xs with
+  | .err e => .err e
+  | .trap => .trap
+  | .ok (xs', pos) =>
+    match readDense k scalar dd (ys.length + 1) pos 0 ys with
+    | .err e => .err e
+    | .trap => .trap
+    | .ok (ys', _) => .ok (xs', ys')
+
+/-- the closure of one `read_sparse_deltas` pass: `limit` = how many indices the closure accepts
+(`deltas.get_mut(ix).zip(flags.get_mut(ix))` for x: `min`, `deltas.get_mut(ix)` for y), `mark` = set
+`HAS_DELTA` (x pass only) -/
+def sparseAt (k : DKind) (scalar : Int) (limit : Nat) (mark : Bool) (ix : Nat) (v : Int)
+    (buf : List Int) (flags : List Bool) : Option (List Int × List Bool) :=
+  if ix < limit then
+    match deltaTerm k scalar v with
+    | none => none
+    | some t =>
+      match addAt k buf ix t with
+      | none => none
+      | some buf' => some (buf', if mark then flags.set ix true else flags)
+  else some (buf, flags)
+
+/-- `for (new_delta, point_ix) in packed_deltas.iter().zip(points_iter.by_ref())`: ends silently when
+the points run out -/
+def sparseZip (pd : List Nat) (k : DKind) (scalar : Int) (limit : Nat) (mark : Bool) :
+    List Int → PtSt → List Int → List Bool → Option (List Int × List Bool × PtSt)
+  | [], s, buf, flags => some (buf, flags, s)
+  | v :: rest, s, buf, flags =>
+    match ptNext pd s with
+    | (.yield ix, s') =>
+      match sparseAt k scalar limit mark ix v buf flags with
+      | none => none
+      | some (buf', flags') => sparseZip pd k scalar limit mark rest s' buf' flags'
+    | (_, s') => some (buf, flags, s')
+
+/-- `for _ in 0..run_count { point_ix = points_iter.next().ok_or(OutOfBounds)?; f(point_ix, 0) }` -/
+def sparseZero (pd : List Nat) (k : DKind) (scalar : Int) (limit : Nat) (mark : Bool) :
+    Nat → PtSt → List Int → List Bool → R (List Int × List Bool × PtSt)
+  | 0, s, buf, flags => .ok (buf, flags, s)
+  | n + 1, s, buf, flags =>
+    match ptNext pd s with
+    | (.yield ix, s') =>
+      match sparseAt k scalar limit mark ix 0 buf flags with
+      | none => .trap
+      | some (buf', flags') => sparseZero pd k scalar limit mark n s' buf' flags'
+    | (_, _) => .err .oob
+
+/-- `read_sparse_deltas(cursor, point_numbers, count, f)`; fuel `count + 1` always suffices -/
+def readSparse (pd dd : List Nat) (k : DKind) (scalar : Int) (limit : Nat) (mark : Bool) (count : Nat) :
+    Nat → Nat → Nat → PtSt → List Int → List Bool → R (List Int × List Bool × Nat)
+  | 0, _, _, _, _, _ => .trap
+  | fuel + 1, pos, cur, s, buf, flags =>
+    if cur < count then
+      match u8At dd pos with
+      | none => .err .oob
+      | some control =>
+        let runCount := control % 64 + 1
+        let vsize := runTypeSize control
+        match uadd cur runCount with
+        | none => .trap
+        | some cur' =>
+          if vsize = 0 then
+            match sparseZero pd k scalar limit mark runCount s buf flags with
+            | .err e => .err e
+            | .trap => .trap
+            | .ok (buf', flags', s') => readSparse pd dd k scalar limit mark count fuel (pos + 1) cur' s' buf' flags'
+          else
+            match (Cur.readArray dd ⟨pos + 1⟩ runCount vsize).1 with
+            | .error _ => .err .oob
+            | .ok _ =>
+              match sparseZip pd k scalar limit mark (runValues dd vsize (pos + 1) runCount) s buf flags with
+              | none => .trap
+              | some (buf', flags', s') =>
+                readSparse pd dd k scalar limit mark count fuel (pos + 1 + runCount * vsize) cur' s' buf' flags'
+    else .ok (buf, flags, pos)
+
+/-- `TupleVariation::accumulate_sparse_deltas(deltas, flags, scalar)` with the point numbers `pd` and the
+packed deltas `dd` of the tuple: `count = point_numbers.count()`, the x pass (marks `HAS_DELTA`), the y
+pass; each pass iterates the point numbers afresh -/
+def accumulateSparse (k : DKind) (scalar : Int) (pd dd : List Nat) (xs ys : List Int) (flags : List Bool) :
+    R (List Int × List Int × List Bool) :=
+  let count := pointCount pd
+  match readSparse pd dd k scalar (min xs.length flags.length) true count (count + 1) 0 0 (ptInit pd) xs flags with
+  | .err e => .err e
+  | .trap => .trap
+  | .ok (xs', flags', pos) =>
+    match readSparse pd dd k scalar ys.length false count (count + 1) pos 0 (ptInit pd) ys flags' with
+    | .err e => .err e
+    | .trap => .trap
+    | .ok (ys', _, _) => .ok (xs', ys', flags')
+
 end FontVerif.HandVar
